@@ -62,6 +62,15 @@ theorem open_healthy (health safety : Int) (h : openAccepted health safety = tru
 theorem owner_only (owner signer : String) (p : Option Pos) (h : signer ≠ owner) : userClose owner signer p = .error () := by
   simp [userClose, h]
 
+/-- however many third-party requests name a position within one block, together they take exactly what had accrued - once -/
+theorem only_accrued_taken (n : Nat) (custody accrued : Int) : settleN (n + 1) (custody, accrued) = (custody - accrued, 0) := by
+  induction n generalizing custody accrued with
+  | zero => rfl
+  | succ n ih =>
+    show settleN (n + 1) (settle (custody, accrued)) = _
+    rw [show settle (custody, accrued) = (custody - accrued, 0) from rfl, ih]
+    simp
+
 /-- non-vacuity: a healthy long named in all three lists stays; an unhealthy one goes -/
 example :
     let v : View := { module := .perp, long := true, health := 2000000000000000000, safety := 1025000000000000000,
